@@ -217,6 +217,7 @@ class FactBase:
         self.cfg = cfg
         self.dir = directory or ensure_facts(cfg, repo)
         self.fns = {}
+        self.const_bodies = {}
         self.adts = {}        # type string -> record
         self.adt_by_path = {}  # def path -> [records]
         self.adt_generic = {}
@@ -234,7 +235,11 @@ class FactBase:
                     r = json.loads(raw)
                     k = r["k"]
                     if k == "fn":
-                        self.fns[r["key"]] = Fn(r)
+                        if str(r.get("dk", "")).startswith(("AssocConst", "Const")):
+                            # initialiser of a generic constant: resolved symbolically where the constant is used
+                            self.const_bodies[r["key"]] = Fn(r)
+                        else:
+                            self.fns[r["key"]] = Fn(r)
                     elif k == "adt":
                         self.adts.setdefault(r["ty"], r)
                         self.adt_by_path.setdefault(r["path"], []).append(r)
